@@ -494,6 +494,247 @@ func exploreFunc(key string, newProp func() interface{}, depth int) *c18out {
 	return out
 }
 
+
+// ---- every kind, short sequences (including the generic ...Type entry points) ----
+
+// exploreSeqAllKinds: from a one-element container holding each kind k1 (stored through its own
+// Append<kind> and, for type kinds, through AppendType), every second operation over EVERY kind k2:
+// Append / Prepend / Insert(0) / Insert(1) / Set(0) with the kind-specific method and, for type
+// kinds, with AppendType / PrependType / InsertType / SetType; and Remove(0).
+func exploreSeqAllKinds(key string, newProp func() interface{}, stride int) *c18out {
+	out := &c18out{prop: key, states: map[string]struct{}{}}
+	p := newProp()
+	kinds := kindsOf(p, "Append")
+	var names []string
+	for k := range kinds {
+		names = append(names, k)
+	}
+	sort.Strings(names)
+	if len(names) < 2 {
+		return out
+	}
+	var vals []val
+	for _, k := range names {
+		arg, ok := argFor(kinds[k], 1)
+		if !ok {
+			continue
+		}
+		s := newProp()
+		method(s, "Append"+k).Call([]reflect.Value{arg})
+		ser, _ := callSerialize(s)
+		e := method(s, "At").Call([]reflect.Value{reflect.ValueOf(0)})[0].Interface()
+		vals = append(vals, val{kind: k, arg: arg, label: k, sig: elemSig(e, ser)})
+	}
+	type op2 struct {
+		name    string // Append Prepend Insert0 Insert1 Set0 Remove0
+		generic bool
+		v       int
+	}
+	isType := func(v val) bool { return kinds[v.kind].Kind() == reflect.Interface }
+	apply := func(q interface{}, ref []int, o op2) ([]int, bool) {
+		v := vals[o.v]
+		suffix := v.kind
+		if o.generic {
+			suffix = "Type"
+		}
+		m := func(n string) reflect.Value { return method(q, n) }
+		switch o.name {
+		case "Append":
+			if !m("Append" + suffix).IsValid() {
+				return ref, false
+			}
+			m("Append" + suffix).Call([]reflect.Value{v.arg})
+			return append(append([]int(nil), ref...), o.v), true
+		case "Prepend":
+			if !m("Prepend" + suffix).IsValid() {
+				return ref, false
+			}
+			m("Prepend" + suffix).Call([]reflect.Value{v.arg})
+			return append([]int{o.v}, ref...), true
+		case "Insert0", "Insert1":
+			i := int(o.name[6] - '0')
+			if !m("Insert"+suffix).IsValid() || i > len(ref) {
+				return ref, false
+			}
+			m("Insert" + suffix).Call([]reflect.Value{reflect.ValueOf(i), v.arg})
+			r := append(append(append([]int(nil), ref[:i]...), o.v), ref[i:]...)
+			return r, true
+		case "Set0":
+			n := "Set" + suffix
+			if !m(n).IsValid() && !o.generic {
+				n = "Set"
+			}
+			if !m(n).IsValid() || len(ref) == 0 {
+				return ref, false
+			}
+			m(n).Call([]reflect.Value{reflect.ValueOf(0), v.arg})
+			r := append([]int(nil), ref...)
+			r[0] = o.v
+			return r, true
+		case "Remove0":
+			if len(ref) == 0 {
+				return ref, false
+			}
+			m("Remove").Call([]reflect.Value{reflect.ValueOf(0)})
+			return append([]int(nil), ref[1:]...), true
+		}
+		return ref, false
+	}
+	check := func(q interface{}, ref []int, ops []op2) bool {
+		out.nodes++
+		out.states[fmt.Sprint(ref)] = struct{}{}
+		if aspect, detail := observeSeq(q, ref, vals); aspect != "" {
+			var ns []string
+			gen := false
+			for _, o := range ops {
+				n := o.name + "(" + vals[o.v].kind + ")"
+				if o.generic {
+					n = o.name + "Type(" + vals[o.v].kind + ")"
+					gen = true
+				}
+				ns = append(ns, n)
+			}
+			k := "seq|" + aspect + "|all-kinds"
+			if gen {
+				k += "|generic-Type-entry-point"
+			}
+			out.viols = append(out.viols, report.Violation{Key: k, What: fmt.Sprintf("%s after %v: %s", key, ns, detail), Replay: M{"check": "C18", "property": key, "ops": ns}})
+			return false
+		}
+		return true
+	}
+	for i1, v1 := range vals {
+		for _, g1 := range []bool{false, true} {
+			if g1 && !isType(v1) {
+				continue
+			}
+			first := op2{"Append", g1, i1}
+			for i2, v2 := range vals {
+				if stride > 1 && (i1+i2)%stride != 0 && i1 != i2 && i2 != len(vals)-1 && i2 != 0 {
+					continue
+				}
+				for _, g2 := range []bool{false, true} {
+					if g2 && !isType(v2) {
+						continue
+					}
+					for _, n2 := range []string{"Append", "Prepend", "Insert0", "Insert1", "Set0"} {
+						q := newProp()
+						ref, ok := apply(q, nil, first)
+						if !ok {
+							continue
+						}
+						ref, ok = apply(q, ref, op2{n2, g2, i2})
+						if !ok {
+							continue
+						}
+						out.transitions += 2
+						if check(q, ref, []op2{first, {n2, g2, i2}}) && n2 == "Prepend" {
+							// one step further from the prepended state
+							ref3, ok := apply(q, ref, op2{"Remove0", false, 0})
+							if ok {
+								out.transitions++
+								check(q, ref3, []op2{first, {n2, g2, i2}, {"Remove0", false, 0}})
+							}
+						}
+					}
+				}
+			}
+		}
+	}
+	return out
+}
+
+// exploreFuncAllKinds: Set k1 (also through SetType for type kinds), then Set k2 / SetType k2 / Clear,
+// for EVERY pair of kinds of a functional property.
+func exploreFuncAllKinds(key string, newProp func() interface{}, stride int) *c18out {
+	out := &c18out{prop: key, states: map[string]struct{}{}}
+	p := newProp()
+	kinds := kindsOf(p, "Set")
+	delete(kinds, "")
+	var names []string
+	for k := range kinds {
+		names = append(names, k)
+	}
+	sort.Strings(names)
+	if len(names) < 2 {
+		return out
+	}
+	observe := func(q interface{}) string {
+		ser, err := callSerialize(q)
+		s := strings.Join(trueKinds(q), "+") + "=" + short(ser)
+		if err != nil {
+			s += " err=" + err.Error()
+		}
+		s += fmt.Sprintf(" HasAny=%v", method(q, "HasAny").Call(nil)[0].Bool())
+		return s
+	}
+	type fval struct {
+		kind string
+		arg  reflect.Value
+		sig  string
+		typ  bool
+	}
+	var vals []fval
+	for _, k := range names {
+		arg, ok := argFor(kinds[k], 1)
+		if !ok {
+			continue
+		}
+		s := newProp()
+		method(s, "Set"+k).Call([]reflect.Value{arg})
+		vals = append(vals, fval{k, arg, observe(s), kinds[k].Kind() == reflect.Interface})
+	}
+	emptySig := observe(newProp())
+	hasSetType := method(p, "SetType").IsValid()
+	set := func(q interface{}, v fval, generic bool) string {
+		if generic {
+			method(q, "SetType").Call([]reflect.Value{v.arg})
+			return "SetType(" + v.kind + ")"
+		}
+		method(q, "Set"+v.kind).Call([]reflect.Value{v.arg})
+		return "Set" + v.kind
+	}
+	judge := func(q interface{}, want string, names []string) {
+		out.nodes++
+		out.states[strings.Join(names, ">")] = struct{}{}
+		if got := observe(q); got != want {
+			out.viols = append(out.viols, report.Violation{Key: "slot|all-kinds|" + lastTwo(names), What: fmt.Sprintf("%s after %v reports %s, a single slot would report %s", key, names, got, want),
+				Replay: M{"check": "C18", "property": key, "ops": names}})
+		}
+	}
+	for i1, v1 := range vals {
+		for _, g1 := range []bool{false, true} {
+			if g1 && !(v1.typ && hasSetType) {
+				continue
+			}
+			{
+				q := newProp()
+				n1 := set(q, v1, g1)
+				judge(q, v1.sig, []string{n1})
+				method(q, "Clear").Call(nil)
+				out.transitions += 2
+				judge(q, emptySig, []string{n1, "Clear"})
+			}
+			for i2, v2 := range vals {
+				if stride > 1 && (i1+i2)%stride != 0 && i1 != i2 && i2 != len(vals)-1 && i2 != 0 {
+					continue
+				}
+				for _, g2 := range []bool{false, true} {
+					if g2 && !(v2.typ && hasSetType) {
+						continue
+					}
+					q := newProp()
+					n1 := set(q, v1, g1)
+					n2 := set(q, v2, g2)
+					out.transitions += 2
+					judge(q, v2.sig, []string{n1, n2})
+				}
+			}
+		}
+	}
+	return out
+}
+
 func lastTwo(names []string) string {
 	cls := func(n string) string {
 		switch {
@@ -528,6 +769,11 @@ func C18(tier string) int {
 		newP  func() interface{}
 		fn    bool
 		mixed bool
+		all   bool // every kind, short sequences
+	}
+	stride := 3
+	if res.Thorough() {
+		stride = 1
 	}
 	var jobs []job
 	for _, pk := range o.PropKeys() {
@@ -537,14 +783,14 @@ func C18(tier string) int {
 			continue
 		}
 		if o.Props[pk].Functional {
-			jobs = append(jobs, job{pk, b.New, true, false})
+			jobs = append(jobs, job{pk, b.New, true, false, false}, job{pk, b.New, true, false, true})
 		} else {
-			jobs = append(jobs, job{pk, b.New, false, false}, job{pk, b.New, false, true})
+			jobs = append(jobs, job{pk, b.New, false, false, false}, job{pk, b.New, false, true, false}, job{pk, b.New, false, true, true})
 		}
 	}
-	jobs = append(jobs, job{"JSONLD/type", func() interface{} { return streams.NewJSONLDTypeProperty() }, false, false},
-		job{"JSONLD/type", func() interface{} { return streams.NewJSONLDTypeProperty() }, false, true},
-		job{"JSONLD/id", func() interface{} { return streams.NewJSONLDIdProperty() }, true, false})
+	jobs = append(jobs, job{"JSONLD/type", func() interface{} { return streams.NewJSONLDTypeProperty() }, false, false, false},
+		job{"JSONLD/type", func() interface{} { return streams.NewJSONLDTypeProperty() }, false, true, false},
+		job{"JSONLD/id", func() interface{} { return streams.NewJSONLDIdProperty() }, true, false, false})
 	outs := make([]*c18out, len(jobs))
 	var mu sync.Mutex
 	par(len(jobs), func(i int) {
@@ -557,7 +803,11 @@ func C18(tier string) int {
 					out.viols = append(out.viols, report.Violation{Key: "panic|" + fmt.Sprint(r), What: fmt.Sprintf("%s: container operation panicked: %v", j.key, r), Replay: M{"check": "C18", "property": j.key}})
 				}
 			}()
-			if j.fn {
+			if j.fn && j.all {
+				out = exploreFuncAllKinds(j.key, j.newP, stride)
+			} else if j.all {
+				out = exploreSeqAllKinds(j.key, j.newP, stride)
+			} else if j.fn {
 				out = exploreFunc(j.key, j.newP, depthFunc)
 			} else if j.mixed {
 				out = exploreSeq(j.key, j.newP, depthMixed, true)
@@ -578,12 +828,15 @@ func C18(tier string) int {
 		for s := range out.states {
 			_ = s
 		}
-		res.Nontrivial[fmt.Sprintf("%s|%v|%v", out.prop, jobs[i].fn, jobs[i].mixed)] = struct{}{}
+		res.Nontrivial[fmt.Sprintf("%s|%v|%v|%v", out.prop, jobs[i].fn, jobs[i].mixed, jobs[i].all)] = struct{}{}
 		for _, v := range out.viols {
 			res.Violate(v.Key, v.What, v.Replay)
 		}
 		if out.sample != nil {
 			res.Sample(out.sample)
+		}
+		if jobs[i].all {
+			continue
 		}
 		if jobs[i].fn {
 			nfunc++
@@ -599,7 +852,7 @@ func C18(tier string) int {
 	res.Extra["non_functional_properties"] = nseq
 	res.Extra["functional_properties"] = nfunc
 	res.Extra["depth_completed"] = M{"iri_alphabet": depthIRI, "mixed_alphabet": depthMixed, "functional": depthFunc}
-	res.Rule = fmt.Sprintf("every non-functional property (%d): ALL operation sequences from the empty container up to depth %d over {Append,Prepend,Insert(i),Set(i),Remove(i),Swap(i,j)} with every valid index and 2 IRI values, and to depth %d with a mixed alphabet {IRI, first literal kind, first type kind}; after every step Len/Empty/At(i) kind+value/forward walk/backward walk/Serialize are compared with a plain Go slice driven by the same operations; every functional property (%d): all Set*/SetIRI/Clear sequences up to length %d; states = distinct (property, reference state) pairs, transitions = operations applied; every state is rebuilt by replaying its operation list on a fresh real object", nseq, depthIRI, depthMixed, nfunc, depthFunc)
+	res.Rule = fmt.Sprintf("every non-functional property (%d): ALL operation sequences from the empty container up to depth %d over {Append,Prepend,Insert(i),Set(i),Remove(i),Swap(i,j)} with every valid index and 2 IRI values, and to depth %d with a mixed alphabet {IRI, first literal kind, first type kind}; after every step Len/Empty/At(i) kind+value/forward walk/backward walk/Serialize are compared with a plain Go slice driven by the same operations; every functional property (%d): all Set*/SetIRI/Clear sequences up to length %d over IRI + up to 3 kinds; additionally EVERY kind of every property in short sequences (non-functional: a one-element container of kind k1 followed by Append/Prepend/Insert(0|1)/Set(0) of kind k2, Remove after Prepend; functional: Set k1 then Set k2 / Clear), each also through the generic AppendType/PrependType/InsertType/SetType entry points, for all pairs (k1,k2) (quick: a third of the pairs, always including k1=k2 and the first and last kind); states = distinct (property, reference state) pairs, transitions = operations applied; every state is rebuilt by replaying its operation list on a fresh real object", nseq, depthIRI, depthMixed, nfunc, depthFunc)
 	res.Assumptions = []string{"an element's expected observation is the one a fresh single-element container shows for the same (kind, value): the check judges the container logic, not per-kind serialisation (C01/C12)"}
 	return res.Finish()
 }
